@@ -37,13 +37,13 @@ P = {
     "design": [{"module": "MC_I_RouteMgr", "cfg": "MC_I_RouteMgr_quick.cfg", "thorough_cfg": "MC_I_RouteMgr.cfg",
                 "workers": 4, "timeout": 300, "thorough_timeout": 1700, "allow_zero": ("INext",)}],
     "gens": [
-        {"module": "Gen_RouteMgr", "cfg": "Gen_cover.cfg", "workers": 2, "max": 1200, "thorough_max": 20000,
+        {"module": "Gen_RouteMgr", "cfg": "Gen_cover.cfg", "workers": 2, "max": 1200, "thorough_max": 10000,
          "timeout": 300, "thorough_timeout": 900},
         {"module": "Gen_RouteMgr", "cfg": "Gen_sim.cfg", "simulate": {"num": 100, "depth": 40},
-         "thorough_simulate": {"num": 3000, "depth": 40}, "timeout": 300, "thorough_timeout": 900},
+         "thorough_simulate": {"num": 1500, "depth": 40}, "timeout": 300, "thorough_timeout": 900},
     ],
     "driver": {"overlay_pkg": PKG, "run": "^TestVerifMgrRoutes$"},
-    "n_random": (300, 6000),
+    "n_random": (300, 4000),
     "trace": {"module": "T_RouteMgr", "cfg": "T_RouteMgr.cfg", "heap": "4g"},
     "chunk": 100000,
     "signature": signature,
